@@ -7,6 +7,14 @@
 From Coq Require Import List Arith Bool Lia.
 Import ListNotations.
 
+Lemma app_inj_pivot_len {A} : forall (a a' : list A) x x' b b',
+  a ++ x :: b = a' ++ x' :: b' -> length a = length a' -> a = a' /\ x = x' /\ b = b'.
+Proof.
+  induction a as [|y a IH]; intros a' x x' b b' H Hl; destruct a' as [|y' a']; try (cbn in Hl; lia).
+  - cbn in H. inversion H; auto.
+  - cbn in H. inversion H; subst. cbn in Hl. destruct (IH a' x x' b b' H2 ltac:(lia)) as (-> & -> & ->). auto.
+Qed.
+
 Section Climber.
   Variables op atom : Type.
   Variable prec : op -> nat.
@@ -168,6 +176,98 @@ Section Climber.
     destruct (proj1 (sound_both _) _ _ _ _ _ E) as ((Ht & Hf) & _ & Hd & Hok).
     assert (rest' = []) as -> by (destruct rest' as [|[h x] r]; [reflexivity|cbn in Hd; lia]).
     exists t. rewrite app_nil_r in Ht. cbn [toks first app] in Ht, Hf. repeat split; auto.
+  Qed.
+  (* ---------------------------------------------------------------- uniqueness: the table-respecting grouping is unique,
+     so parsing the flat spelling of a table-respecting tree gives that tree back *)
+  Definition allp (P : op -> Prop) (t : tree) : Prop := Forall (fun x => P (fst x)) (toks t).
+
+  Lemma binds_false_le o new : binds_right o new = false -> prec new <= prec o.
+  Proof. unfold binds_right. intros H. apply orb_false_iff in H as [H _]. apply Nat.ltb_ge in H. exact H. Qed.
+  Lemma binds_true_le o new : binds_right o new = true -> prec o <= prec new.
+  Proof.
+    unfold binds_right. intros H. apply orb_true_iff in H as [H|H]; [apply Nat.ltb_lt in H; lia|].
+    apply andb_true_iff in H as [_ H]. apply Nat.eqb_eq in H. lia.
+  Qed.
+
+  Lemma ok_root_min : forall t, ok t -> match root t with Some o => allp (fun x => prec o <= prec x) t | None => True end.
+  Proof.
+    induction t as [a|o l IHl r IHr]; intros H; [exact I|]. cbn [root]. cbn [ok] in H. destruct H as (Hl & Hr & Hlc & Hrc).
+    unfold allp. cbn [toks]. apply Forall_app. split; [|constructor; [cbn; lia|]].
+    - specialize (IHl Hl). unfold lcond in Hlc. destruct (root l) as [ol|] eqn:E.
+      + apply binds_false_le in Hlc. unfold allp in IHl. eapply Forall_impl; [|exact IHl]. cbn. intros x Hx. lia.
+      + destruct l; [constructor|discriminate].
+    - specialize (IHr Hr). unfold rcond in Hrc. destruct (root r) as [p|] eqn:E.
+      + apply binds_true_le in Hrc. unfold allp in IHr. eapply Forall_impl; [|exact IHr]. cbn. intros x Hx. lia.
+      + destruct r; [constructor|discriminate].
+  Qed.
+
+  Lemma ok_right_strict o l r : ok (Node o l r) -> lvl_right (prec o) = false -> allp (fun x => prec o < prec x) r.
+  Proof.
+    cbn [ok]. intros (_ & Hr & _ & Hrc) Hlv. pose proof (ok_root_min r Hr) as Hm. unfold rcond in Hrc.
+    destruct (root r) as [p|] eqn:E; [|destruct r; [constructor|discriminate]].
+    assert (prec o < prec p).
+    { unfold binds_right in Hrc. apply orb_true_iff in Hrc as [H|H]; [apply Nat.ltb_lt in H; exact H|].
+      apply andb_true_iff in H as [Hra He]. apply Nat.eqb_eq in He. unfold rassoc in Hra. rewrite He, Hlv in Hra. discriminate. }
+    unfold allp in *. eapply Forall_impl; [|exact Hm]. cbn. intros x Hx. lia.
+  Qed.
+
+  Lemma ok_left_strict o l r : ok (Node o l r) -> lvl_right (prec o) = true -> allp (fun x => prec o < prec x) l.
+  Proof.
+    cbn [ok]. intros (Hl & _ & Hlc & _) Hlv. pose proof (ok_root_min l Hl) as Hm. unfold lcond in Hlc.
+    destruct (root l) as [ol|] eqn:E; [|destruct l; [constructor|discriminate]].
+    assert (prec o < prec ol).
+    { unfold binds_right in Hlc. apply orb_false_iff in Hlc as [H1 H2]. apply Nat.ltb_ge in H1.
+      apply andb_false_iff in H2. unfold rassoc in H2. rewrite Hlv in H2. destruct H2 as [H2|H2]; [discriminate|].
+      apply Nat.eqb_neq in H2. lia. }
+    unfold allp in *. eapply Forall_impl; [|exact Hm]. cbn. intros x Hx. lia.
+  Qed.
+
+  Lemma split_position {A} : forall (a a' : list A) x x' b b',
+    a ++ x :: b = a' ++ x' :: b' -> length a < length a' -> In x a' /\ In x' b.
+  Proof.
+    induction a as [|y a IH]; intros a' x x' b b' H Hl.
+    - destruct a' as [|y' a']; [cbn in Hl; lia|]. cbn in H. inversion H; subst. split; [left; reflexivity|].
+      apply in_or_app. right. left. reflexivity.
+    - destruct a' as [|y' a']; [cbn in Hl; lia|]. cbn in H. inversion H; subst. cbn [length] in Hl.
+      destruct (IH a' x x' b b' H2 ltac:(lia)) as [H1 H3]. split; [right; exact H1|exact H3].
+  Qed.
+
+  Lemma roots_same_position o l r o' l' r' :
+    ok (Node o l r) -> ok (Node o' l' r') -> toks (Node o l r) = toks (Node o' l' r') -> ~ length (toks l) < length (toks l').
+  Proof.
+    intros H1 H2 Ht Hlt. cbn [toks] in Ht. destruct (split_position _ _ _ _ _ _ Ht Hlt) as [Hin1 Hin2].
+    (* o sits inside l', o' inside r *)
+    pose proof (ok_root_min _ H1) as M1. pose proof (ok_root_min _ H2) as M2. cbn [root] in M1, M2. unfold allp in M1, M2.
+    cbn [toks] in M1, M2. apply Forall_app in M1 as [_ M1]. inversion M1 as [|? ? _ M1r]; subst.
+    apply Forall_app in M2 as [M2l _].
+    rewrite Forall_forall in M1r, M2l. pose proof (M1r _ Hin2) as Ha. pose proof (M2l _ Hin1) as Hb. cbn [fst] in Ha, Hb.
+    assert (He : prec o = prec o') by lia.
+    destruct (lvl_right (prec o)) eqn:Hlv.
+    - pose proof (ok_left_strict _ _ _ H2) as S. rewrite <- He in S. specialize (S Hlv). unfold allp in S. rewrite Forall_forall in S.
+      specialize (S _ Hin1). cbn [fst] in S. lia.
+    - pose proof (ok_right_strict _ _ _ H1 Hlv) as S. unfold allp in S. rewrite Forall_forall in S.
+      specialize (S _ Hin2). cbn [fst] in S. lia.
+  Qed.
+
+  Theorem ok_unique : forall t1 t2, ok t1 -> ok t2 -> first t1 = first t2 -> toks t1 = toks t2 -> t1 = t2.
+  Proof.
+    induction t1 as [a|o l IHl r IHr]; intros t2 H1 H2 Hf Ht.
+    - destruct t2 as [a'|o' l' r']; [cbn in Hf; congruence|].
+      cbn [toks] in Ht. destruct (toks l'); discriminate.
+    - destruct t2 as [a'|o' l' r']; [cbn [toks] in Ht; destruct (toks l); discriminate|].
+      assert (Hlen : length (toks l) = length (toks l')).
+      { pose proof (roots_same_position _ _ _ _ _ _ H1 H2 Ht). pose proof (roots_same_position _ _ _ _ _ _ H2 H1 (eq_sym Ht)). lia. }
+      cbn [toks] in Ht. apply app_inj_pivot_len in Ht; [|exact Hlen].
+      destruct Ht as (Hl & Hx & Hr). inversion Hx; subst.
+      cbn [ok] in H1, H2. destruct H1 as (Hl1 & Hr1 & _). destruct H2 as (Hl2 & Hr2 & _). cbn [first] in Hf.
+      rewrite (IHl l' Hl1 Hl2 Hf Hl), (IHr r' Hr1 Hr2 H3 Hr). reflexivity.
+  Qed.
+
+  (* the flat spelling of a tree that respects the table is parsed back to that tree *)
+  Theorem climber_complete : forall t, ok t -> parse (first t) (toks t) = Some (t, []).
+  Proof.
+    intros t Hok. destruct (climber_sound (first t) (toks t)) as (t' & Hp & Hf & Ht & Hok').
+    rewrite Hp. f_equal. f_equal. apply ok_unique; auto.
   Qed.
 End Climber.
 
